@@ -406,6 +406,17 @@ def body_conjugate(case, ctx):
     cc = cond_of(C)
     check_derived(ctx, case, L, d, lambda M: Ci @ M @ C, "conjugate(C)[w] = C^-1 rho(w) C",
                   degree=1, extra_cond=cc * cc)
+    # a change of basis with whole-number entries given as an integer-typed array (and whose
+    # inverse is not integral)
+    n = case["n"]
+    Cz = np.eye(n, dtype=np.int64)
+    Cz[0, 0] = 2
+    if n >= 2:
+        Cz[0, 1] = 1
+    dz = rep.conjugate(Cz.copy())
+    Czi = np.linalg.inv(Cz.astype(float))
+    check_derived(ctx, case, L, dz, lambda M: Czi @ M @ Cz,
+                  "conjugate(integer-typed C)[w] = C^-1 rho(w) C", degree=1, extra_cond=9.0)
     finish(ctx, rep, case, guard, before, "conjugate")
 
 
@@ -833,6 +844,15 @@ def body_astype(case, ctx):
                       atol=2e-6 * (len(w) + 1) * L.n * L.growth(w) * L.cond(), word=wstr(w))
         else:
             ctx.close("astype[w] = rho(w)", got, want, rtol=0, atol=tol(b, want), word=wstr(w))
+    # a conversion to the dtype the representation already reports: still a new
+    # representation (assigning to it leaves the parent alone), with every generator in
+    # that dtype
+    same = rep.astype(rep.dtype)
+    for g in same.generators:
+        ctx.check(np.dtype(same.generators[g].dtype) == np.dtype(rep.dtype),
+                  "astype(rep.dtype) converts every stored matrix", g=g,
+                  got=str(same.generators[g].dtype))
+    same[case["names"][0]] = 2.0 * np.eye(case["n"])
     finish(ctx, rep, case, guard, before, "astype")
 
 
